@@ -219,21 +219,24 @@ CLAIMS = {
         note=COMMON_NOTE + "pandas (dtype inference, NaN handling, date parsing, float formatting) is the trusted/opaque "
              "layer; size-1/0-d arrays are canonicalised to their scalar as the property states 'numeric values as floats'.",
         tech="Lean 4 theorems over regenerated group-by tables + row-model differential correspondence"),
-    "C15": dict(level=TV, ref="§7 C15",
-        text="37 kernel-checked theorems for both bases: rightTri_lags_exact, rightTri_metadata, rightTri_values_empty, "
+    "C15": dict(level=PV, ref="§7 C15",
+        text="42 kernel-checked theorems for both bases, none open: rightTri_lags_exact, rightTri_metadata, rightTri_values_empty, "
              "rightTri_basis, rightTri_empty_when_complete, rightTri_disjoint_of_monotone (any unit and lag list under the "
              "exact hypothesis LagMonotone, with month and day instances), rightTri_incremental_chain, rightDiag_spec, "
-             "fill_preserves_observed, fill_added_inside_gaps, fill_values, backfill_preserves_observed, "
-             "backfill_added_before_first, backfill_min_lag(_exact), backfill_values, fill_complete (every lag of the row's range is present after fill_forward_gaps), and the full Spec bridges "
-             "extensionSpec_model_rightTri / extensionSpec_model_rightDiag (the whole executable Spec holds on the model's output, "
-             "incl. no duplicated coordinates). Two statements OPEN (extensionSpec_model_fill / _backfill: every Prop-level clause is a "
-             "theorem, the Bool bridge to the executable Spec is missing). Every clause, proved or open, is evaluated by the "
-             "Lean Spec (rightTriSpec, rightDiagSpec, fillSpec, backfillSpec) on the implementation's output, and dumps "
+             "fill_preserves_observed, fill_added_inside_gaps, fill_values, fill_complete, backfill_preserves_observed, "
+             "backfill_added_before_first, backfill_min_lag(_exact), backfill_values, and the full Spec bridges for all four "
+             "operators: extensionSpec_model_rightTri / _rightDiag / _fill / _backfill prove that the WHOLE executable Spec "
+             "(observed cells kept as a list, no coordinate created twice, placement, metadata, values, completeness, "
+             "canonical order) holds on the model's output. Every clause is also evaluated by the Lean Spec (rightTriSpec, "
+             "rightDiagSpec, fillSpec, backfillSpec) on the implementation's output, and dumps "
              "are compared with the model, for complete / upper-left / ragged / single-period / single-lag triangles, "
              "1-3 slices, both bases, lag lists and units, resolutions, minimum lags incl. negative.",
-        note=COMMON_NOTE + "Domain: an explicit eval_resolution passed to fill_forward_gaps must divide the row's lag "
-             "differences; backfill has no per-slice completeness clause (see DESIGN §12.2).",
-        tech="Lean 4 theorems (membership/structure of added cells) + Spec predicates on implementation outputs"),
+        note=COMMON_NOTE + "Domain hypotheses of the bridges (each with a non-vacuity theorem): SpecDomain (canonical triangle and "
+             "metadata, month-aligned from 1970 on, no coordinate occupied twice), BackfillOk (every cell the backfill loop would "
+             "create passes the constructor's date rules - the Python loop stops at the first ValueError), a positive resolution; "
+             "an explicit eval_resolution passed to fill_forward_gaps must divide the row's lag differences; backfill has no "
+             "per-slice completeness clause (see DESIGN §12.2).",
+        tech="Lean 4 proof (membership/structure of added cells, sorted-permutation uniqueness for the list equations) + Spec predicates on implementation outputs"),
     "C10": dict(level=PV, ref="§7 C10",
         text="82 kernel-checked theorems, none open, about the model of join (six types, with and without `on`), merge, coalesce, "
              "add_statics and period_merge: join_keys (key multiset = the relational set expression for all six types, "
@@ -269,21 +272,26 @@ CLAIMS = {
              "distributions, maximum-entropy quantile arithmetic, mean/variance match of moment_match; numpy RNG.",
         tech="Lean 4 theorems on rank re-imposition / thinning / development models + Spec predicates on "
              "implementation outputs"),
-    "C18": dict(level=TV, ref="§7 C18",
-        text="28 kernel-checked theorems: currency_spec (bijection input/output cells, exactly the generated "
+    "C18": dict(level=PV, ref="§7 C18",
+        text="32 kernel-checked theorems, none open: currency_spec (bijection input/output cells, exactly the generated "
              "currency fields times the slice rate, everything else unchanged, target set; both refusals), disagg_sum "
              "and disagg_weights_sum_one (renormalised weights sum to 1 over Q so sub-period values add up), "
              "policyYear_basis, policyYear_conserves (full model-level conservation per evaluation date, field and "
              "component), premium_sums, premium_nonneg, premium_earned_le_written (convolution bound), disagg_conserves, "
-             "disagg_tiling (sub-periods are the closed-form whole-month blocks tiling the period), and the Bool Spec "
-             "bridges; aggregate_disagg_partial (per slice: aggregating the disaggregated slice back yields exactly one cell per observable input coordinate with the input's readings); one statement OPEN (aggregate_disagg at full strength: exactly-once across slices, exact key sets and positional order). CURRENCY_FIELDS and the interpolation-field list "
+             "disagg_tiling (sub-periods are the closed-form whole-month blocks tiling the period), aggregate_disagg "
+             "(aggregating disaggregate_experience(t) back to the original resolution returns exactly the observable cells of t: "
+             "same coordinates once each across slices in triangle order, cumulative cells, same key sets and values; "
+             "aggregate_disagg_default discharges the rule hypothesis for the default field list by decide over the regenerated "
+             "tables), and the Bool Spec bridges. CURRENCY_FIELDS and the interpolation-field list "
              "are regenerated from /repo each run. Correspondence over four streams (currency, disaggregation, policy "
              "year, premium pattern) with conservation Specs evaluated on the implementation's outputs, incl. "
              "aggregate(disaggregate(t)) = t on the implementation.",
         note=COMMON_NOTE + "Exact on dyadic data; relative tolerance 2^-40 where the code divides (default 1/n weights, "
-             "renormalisation, share and pattern normalisation). Policy-year conversion with continuous_issuance=False "
+             "renormalisation, share and pattern normalisation). aggregate_disagg: canonical triangle and metadata, one period "
+             "resolution L in all slices, aggregate called with (L, month), month-end origin on whose grid all period starts lie. "
+             "Policy-year conversion with continuous_issuance=False "
              "and accident periods no policy reaches is outside the share table's contract (reported as uncovered).",
-        tech="Lean 4 theorems over Q (conservation laws) + regenerated tables + differential correspondence"),
+        tech="Lean 4 proof over Q (conservation laws, round trip through aggregate) + regenerated tables + differential correspondence"),
     "C20": dict(level=PV, ref="§7 C20",
         text="PARTIAL (altair/Vega-Lite validity is library behaviour, correspondence only). 20 kernel-checked theorems, none open, about the model of build_plot_data and FieldSummary: "
              "records_one_per_cell_in_order, lossRatio_value (100*loss/premium), passthrough_value, ata_value, "
